@@ -21,7 +21,7 @@ ResOf(S) == IF S = {} THEN "notfound" ELSE "ok"
 TReset == /\ IsEv("reset")
           /\ db' = {} /\ txnActive' = FALSE /\ txnMods' = {}
           /\ cacheAzks' = {} /\ cacheMap' = {} /\ canClean' = TRUE /\ rejectNext' = FALSE
-          /\ inflight' = {} /\ gen' = 0
+          /\ inflight' = {} /\ gen' = 0 /\ extStale' = {}
 
 TSet == IsEv("set") /\ NoDup(Ev.recs) /\ SetRecs(ToSet(Ev.recs), Ev.res)
 TBegin == IsEv("begin") /\ Begin(Ev.res)
@@ -36,16 +36,20 @@ TCommit ==
 TRollback == IsEv("rollback") /\ Rollback(Ev.res)
 TTombstone == IsEv("tombstone") /\ Tombstone(Ev.user, Ev.epoch, Ev.res)
 TRejectNext == /\ IsEv("reject_next") /\ rejectNext' = TRUE
-               /\ UNCHANGED <<db, txnActive, txnMods, cacheAzks, cacheMap, canClean, inflight, gen>>
-TNoop == (IsEv("flush") \/ IsEv("clean") \/ IsEv("sleep")) /\ Same
+               /\ UNCHANGED <<db, txnActive, txnMods, cacheAzks, cacheMap, canClean, inflight, gen, extStale>>
+TNoop == (IsEv("clean") \/ IsEv("sleep")) /\ Same
+(* after a flush every read reflects storage again, whatever another instance wrote before it *)
+TFlush == /\ IsEv("flush") /\ extStale' = {}
+          /\ UNCHANGED <<db, txnActive, txnMods, cacheAzks, cacheMap, canClean, rejectNext, inflight, gen>>
+TExtSet == IsEv("ext_set") /\ ExtWrite(ToSet(Ev.recs))
 
 TGet == /\ IsEv("get")
-        /\ ToSet(Ev.out) = MGet(Ev.key) /\ Ev.res = ResOf(MGet(Ev.key))
+        /\ (Ev.key \notin extStale => (ToSet(Ev.out) = MGet(Ev.key) /\ Ev.res = ResOf(MGet(Ev.key))))
         /\ txnActive => MGet(Ev.key) = PostGet(Ev.key)
         /\ Same
 TDirect == IsEv("direct") /\ ToSet(Ev.out) = Lookup(db, Ev.key) /\ Ev.res = ResOf(Lookup(db, Ev.key)) /\ Same
 TBatchGet == /\ IsEv("batch_get") /\ Ev.res = "ok"
-             /\ ToSet(Ev.out) = MBatchGet(ToSet(Ev.keys)) /\ NoDup(Ev.out)
+             /\ (ToSet(Ev.keys) \cap extStale = {} => ToSet(Ev.out) = MBatchGet(ToSet(Ev.keys))) /\ NoDup(Ev.out)
              /\ Same
 TUData == /\ IsEv("udata")
           /\ ToSet(Ev.out) = MUserData(Ev.user) /\ NoDup(Ev.out)
@@ -61,7 +65,7 @@ TUVersions == /\ IsEv("uversions") /\ Ev.res = "ok"
               /\ txnActive => MUserVersions(ToSet(Ev.users), Ev.flag) = PostUserVersions(ToSet(Ev.users), Ev.flag)
               /\ Same
 
-TNext == (TReset \/ TSet \/ TBegin \/ TCommit \/ TRollback \/ TTombstone \/ TRejectNext \/ TNoop
+TNext == (TReset \/ TSet \/ TBegin \/ TCommit \/ TRollback \/ TTombstone \/ TRejectNext \/ TNoop \/ TFlush \/ TExtSet
           \/ TGet \/ TDirect \/ TBatchGet \/ TUData \/ TUState \/ TUVersions) 
 
 TraceInv == TypeOK
